@@ -449,7 +449,9 @@ class XStr(object):
             return self.data
 
     def __repr__(self):
-        return '%s("%s")' % (self.encoding, self.data_to_string())
+        # Both fields are quoted with %r: the repr is spliced into generated
+        # filter code, so it must read back as this value and nothing else.
+        return 'XStr(%r, %r)' % (self.encoding, self.data_to_string())
 
     def __eq__(self, other):
         if not isinstance(other, XStr):
